@@ -24,6 +24,12 @@ PARTS = HEAD + consts('LEAD_SIZE', 'INDEX_HEADER_SIZE', 'INDEX_ENTRY_SIZE', 'HEA
     Decl(PKG, 'struct', 'PackageMetadata'),
     Decl(PKG, 'struct', 'Package'),
     Raw('''
+impl IndexData {
+    /// V:c14_writers:IndexData::num_items (proved there on the verbatim body); not called by the parser on the pinned
+    /// tree - declared so that an edit that starts using it is judged instead of rejected (seed C01-c)
+    #[verifier::external_body]
+    pub fn num_items(&self) -> (r: u32) ensures r == data_count(*self) { unimplemented!() }
+}
 pub open spec fn ser_lead(l: Lead) -> Seq<u8> {
     l.magic@ + seq![l.major] + seq![l.minor] + be16(l.package_type) + be16(l.arch) + l.name@
       + be16(l.os) + be16(l.signature_type) + l.reserved@
